@@ -121,6 +121,21 @@ def run(ctx, b, broken):
             pm = "-" if m is None else m.lastgroup + US + str(len(m.group(0)))
             if mm != pm:
                 disagreements.append(("master-regex", s, pm, mm))
+    # adjacent string literals: ONE Constant whose spelling is a well-formed literal again - the common prefix, one pair of
+    # quotes, the contents of the pieces in order (C99 6.4.5p4; pieces of one prefix class)
+    for pre in ["", "L", "u8", "u", "U"]:
+        for pieces in [["ab", "cd"], ["a", "b", "c"], ["", "x"], ["x", ""], ["a\\\"b", "c"], ["\\n", "\\t", "z"], ["1", "2", "3", "4"]]:
+            for sep in [" ", "", "\n", " \t "]:
+                ctx.evaluations += 1
+                text = sep.join(f'{pre}"{c}"' for c in pieces)
+                ctx.count("adjacent-strings")
+                ctx.nontriv(("adjacent", text))
+                io_p = impl_parse(f"char *x = {text};", wc=False)
+                want_v = pre + '"' + "".join(pieces) + '"'
+                exp_frag = f"(Constant 'string' {want_v!r})"
+                if exp_frag not in io_p and nviol < 8:
+                    nviol += 1
+                    ctx.violation({"property": "C10", "input": f"char *x = {text};", "problem": f"adjacent literals {text!r} do not become {exp_frag}: {io_p[:200]!r}"})
     if model:
         model.close()
     ctx.sample({"text": "0x1Fu", "class": "INT_CONST_HEX", "type": "unsigned int"})
